@@ -15,7 +15,7 @@ from tabutil import table_rows, views_equal, Monitor      # noqa: E402
 from drv_vec import Fails, attempt                        # noqa: E402
 
 TEXTS = {
-    "blank": [""], "spaces": [" ", "   ", "\t"], "int": ["12", "-7", "0", "+3", "007"], "padint": [" 12 ", "  -4", "5  "],
+    "blank": [""], "spaces": [" ", "   ", "\t"], "int": ["12", "-7", "0", "+3", "007", "9007199254740993", "-9007199254740993", "12345678901234567890", "18446744073709551617"], "padint": [" 12 ", "  -4", "5  "],
     "float": ["1.5", "-0.25", "1e3", ".5", "3."], "text": ["abc", "N/A", "été", "x y", "a\x0bb", "c\u2028d", "p\x85q", "f\x0cg", "s\x1ct", "u\u2029v", "r\x1ds"], "quoted": ["a,b", 'say "hi"', "two\nlines", "semi;colon", "tab\there", "pipe|x", "win\r\nlines", "mac\rline", "x\r\n"],
     "numlike": ["1_000", "0x10", "nan", "inf", "1e", "--1", "1,5", "١٢", "Infinity", "1e400"],
 }
